@@ -770,6 +770,21 @@ fn exec<V: Val, A: Auto<V>>(c: &Case, vals: &[V], rng: &mut Rng, out: &mut Out) 
         all.push(rs);
     }
 
+    // MM: the entry points that do not fit the automaton's match kind are documented to panic;
+    // whatever they do, they have to return (a hang is caught by the watchdog of ./check)
+    let other: &[usize] = if c.kind == 0 { &[3] } else { &[0, 1, 2] };
+    for h in c.hays.iter().filter(|h| !h.is_empty()).take(2) {
+        out.line(&format!("MMH {}", hex(h)));
+        for &m in other {
+            let r = guard(|| pma.search(m, h));
+            out.line(&format!("MM {} slice {}", METHODS[m], if r.is_some() { "returned" } else { "panic" }));
+            if m < 3 {
+                let ri = guard(|| pma.search_it(m, h));
+                out.line(&format!("MM {} iter {}", METHODS[m], if ri.is_some() { "returned" } else { "panic" }));
+            }
+        }
+    }
+
     // DS: serialisation round trip with trailing bytes
     let trail: Vec<u8> = (0..rng.below(6)).map(|_| rng.next() as u8).collect();
     let mut buf = img.clone();
